@@ -1,4 +1,5 @@
 import Varint.Model.Float
+import Varint.Model.FloatDec
 import Driver.Arrays
 /- float operations of the line protocol -/
 namespace Driver
@@ -16,7 +17,12 @@ def floatRt (t : Array String) : String :=
   let m := parseHex ((kw t "m").getD "0")
   let (ds, _) := parseArray t (firstArrayArg t)
   let b := Float.enc p m ds
-  s!"len={b.length} {showBuf "b" b} adv={Float.maxSize ds.length p}"
+  let decoded :=
+    if ds.length = 0 ∨ b.length = 0 then ""
+    else match Float.decFull b ds.length with
+      | some (vs, rest) => s!" used={b.length - rest.length} {showBuf "d" (vs.flatMap (leBytes 8))}"
+      | none => " used=0 d=fail"
+  s!"len={b.length} {showBuf "b" b} adv={Float.maxSize ds.length p}{decoded}"
 
 def floatAuto (t : Array String) : String :=
   let e := parseHex ((kw t "e").getD "0")
